@@ -21,3 +21,67 @@ Definition snapshot_ops (tmp target : string) (b : list N) : list fsop :=
 (* what the loader of the next start reads: os.Open(snapf); a missing file is an empty state, i.e. no bytes *)
 Definition snapshot_bytes (s : fs) (target : string) : list N :=
   match content s target with Some b => b | None => [] end.
+
+(* ---------- loading: decodeState + loadSnapshot of both packages ---------- *)
+From AM Require Import Model.Nflog Model.Wire.
+From stdpp Require Import pretty.
+
+(* nflog.receiverKey / stateKey *)
+Definition recv_key (r : wrecv) : string :=
+  r_group r +:+ "/" +:+ r_integ r +:+ "/" +:+ pretty (r_idx r).
+Definition mesh_key (m : wmesh) : option string :=
+  match wm_entry m with
+  | Some e => match we_recv e with Some r => Some (we_gkey e +:+ ":" +:+ recv_key r) | None => None end
+  | None => None
+  end.
+
+(* nflog decodeState: a record without Entry or Receiver is ErrInvalidState; a later record replaces an earlier
+   one with the same key. The result lists the state by key (first-appearance order; the code uses a Go map). *)
+Fixpoint nflog_state (ms : list wmesh) (acc : list (string * wmesh)) : option (list (string * wmesh)) :=
+  match ms with
+  | [] => Some acc
+  | m :: r => match mesh_key m with Some k => nflog_state r (alist_set k m acc) | None => None end
+  end.
+Definition nflog_load (b : list N) : res (list (string * wmesh)) :=
+  match decode_nflog b with
+  | Ok ms => match nflog_state ms [] with Some st => Ok st | None => Err "invalid state" end
+  | Err c => Err c
+  | Panic => Panic
+  end.
+
+(* silence: postprocessUnmarshalledSilence (legacy matcher list -> one matcher set, legacy list dropped) in
+   decodeState, then the comments upgrade of loadSnapshot. A silence whose matchers do not compile stays in the
+   state map (only the matcher index skips it): modelled as kept. *)
+Definition upgrade_silence (s : wsilence) : wsilence :=
+  let '(mkWS id ms st en up cs cb cm an s1 s2) := s in
+  let s1' := match s1, ms with [], _ :: _ => [ms] | _, _ => s1 end in
+  match cs with
+  | c :: _ => mkWS id [] st en up [] (wc_author c) (wc_comment c) an s1' s2
+  | [] => mkWS id [] st en up [] cb cm an s1' s2
+  end.
+Fixpoint silence_state (ms : list wmeshsil) (acc : list (string * wmeshsil)) : option (list (string * wmeshsil)) :=
+  match ms with
+  | [] => Some acc
+  | m :: r => match ms_sil m with
+              | Some s => let s' := upgrade_silence s in silence_state r (alist_set (ws_id s') (mkMS (Some s') (ms_exp m)) acc)
+              | None => None
+              end
+  end.
+Definition silence_load (b : list N) : res (list (string * wmeshsil)) :=
+  match decode_silences b with
+  | Ok ms => match silence_state ms [] with Some st => Ok st | None => Err "invalid state" end
+  | Err c => Err c
+  | Panic => Panic
+  end.
+
+(* what Snapshot writes for a silence: marshalMeshSilence copies the first matcher set into the legacy field *)
+Definition prepare_silence (s : wsilence) : wsilence :=
+  let '(mkWS id ms st en up cs cb cm an s1 s2) := s in
+  match s1 with
+  | m :: _ => mkWS id m st en up cs cb cm an s1 s2
+  | [] => s
+  end.
+Definition prepare_meshsil (m : wmeshsil) : wmeshsil :=
+  mkMS (option_map prepare_silence (ms_sil m)) (ms_exp m).
+Definition snapshot_silences (st : list wmeshsil) : list N := encode_silences (map prepare_meshsil st).
+Definition snapshot_nflog (st : list wmesh) : list N := encode_nflog st.
